@@ -87,8 +87,13 @@ class C15(vlib.Check):
                 bad = sorted(bad)
                 self.count("serial-bad:" + where)
             self.count("mode:%s" % mode[0])
+            # what makes an input fail: a file that is not an SDF, an empty file, a path that does not exist (removed since the
+            # list was made), a dangling symbolic link
+            badkinds = {str(i): rng.choice(["garbage", "missing", "missing", "empty", "dangling"]) for i in bad}
+            for bk in badkinds.values():
+                self.count("bad-input:" + bk)
             yield {"t": "batch", "files": files, "bad": bad, "order": order, "opts": o, "mode": mode[0], "workers": mode[1],
-                   "names": ["plain", "proto", "mixed"][k % 3]}
+                   "names": ["plain", "proto", "mixed", "rotated"][k % 4], "badkinds": badkinds}
         # output files under the save option, both batch routes (fingerprints from SDF files, conformers from a SMILES file):
         # some outputs exist before the run (valid or stale), overwrite on / off, one failing input
         for k in range(6 if self.tier == "quick" else 40):
@@ -126,7 +131,8 @@ class C15(vlib.Check):
             self.count("interrupt")
             self.count("in-process-resume")
             yield {"t": "interrupt", "files": files, "bad": sorted(rng.sample(range(nfiles), rng.choice([0, 1]))), "opts": o,
-                   "names": ["proto", "mixed", "plain"][k % 3],
+                   # "rotated": the title inside file i is the file stem of file i+1 (renamed / renumbered files)
+                   "names": ["rotated", "proto", "mixed", "plain"][k % 4],
                    "ks": list(range(0, nfiles + 1)) if self.tier == "thorough" else sorted(rng.sample(range(0, nfiles), 2))}
 
     # ------------------------------------------------------------------
@@ -136,8 +142,14 @@ class C15(vlib.Check):
             p = os.path.join(d, "in", "mol%02d.sdf.bz2" % i)
             os.makedirs(os.path.dirname(p), exist_ok=True)
             if i in case["bad"]:
-                with open(p, "wb") as f:
-                    f.write(b"this is not an sdf file")
+                bk = case.get("badkinds", {}).get(str(i), "garbage")
+                if bk == "missing":
+                    pass
+                elif bk == "dangling":
+                    os.symlink(os.path.join(d, "in", "nowhere%02d.sdf.bz2" % i), p)
+                else:
+                    with open(p, "wb") as f:
+                        f.write(b"this is not an sdf file" if bk == "garbage" else b"")
             else:
                 src = MG.load_ref(ref)
                 m = Chem.Mol(src)
@@ -154,6 +166,8 @@ class C15(vlib.Check):
         """input names: plain, or protonation states / numbered variants of one parent (names that differ only in the suffix
         e3fp's MolItemName parses)"""
         scheme = case.get("names", "plain")
+        if scheme == "rotated":
+            return "mol%02d" % ((i + 1) % len(case["files"]))
         if scheme == "proto":
             return "LIG-%d" % i
         if scheme == "mixed":
